@@ -18,6 +18,7 @@ package meta
 import (
 	"bytes"
 	"regexp/syntax"
+	"unicode"
 	"unicode/utf8"
 )
 
@@ -145,7 +146,7 @@ func DetectAnchoredLiteral(re *syntax.Regexp) *AnchoredLiteralInfo {
 			prefix = append(prefix, lit...)
 		} else {
 			// After wildcard - must be charclass+ or nothing
-			if isCharClassPlus(sub) && i == suffixIdx-1 {
+			if isCharClassPlus(sub) && i == suffixIdx-1 && isByteClass(sub.Sub[0]) {
 				// Charclass bridge right before suffix
 				charClassTable = buildCharClassTable(sub.Sub[0])
 				charClassMin = 1 // Plus requires at least 1
@@ -214,6 +215,22 @@ func isCharClassPlus(re *syntax.Regexp) bool {
 		return false
 	}
 	return re.Sub[0].Op == syntax.OpCharClass
+}
+
+// isByteClass reports whether membership in the class can be decided byte by
+// byte: every range is ASCII, or it covers all of non-ASCII (then every byte
+// >= 0x80, part of valid UTF-8 or not, belongs to a member rune).
+func isByteClass(re *syntax.Regexp) bool {
+	if len(re.Rune)%2 != 0 {
+		return false
+	}
+	for i := 0; i+1 < len(re.Rune); i += 2 {
+		lo, hi := re.Rune[i], re.Rune[i+1]
+		if hi >= utf8.RuneSelf && (lo > utf8.RuneSelf || hi != unicode.MaxRune) {
+			return false
+		}
+	}
+	return true
 }
 
 // extractLiteral extracts bytes from a Literal node.
